@@ -23,6 +23,11 @@
 //	            debug.Stack/ReadBuildInfo — unless the text goes only to a logger (errtext.go)
 //	error-text-in-consensus-data err.Error() / `%s` `%v` of an error used as a VALUE (not to build another error, not logged, not
 //	            panicked): acknowledgement messages, event attributes, stored fields (errtext.go)
+//	package-init-calls-config-dependent-code a package-level initialiser / init() that calls (up to two module levels deep) code whose
+//	            result depends on runtime configuration or writes a dependency-global cache: sdk address .String()/Bech32ify/GetConfig,
+//	            time.Now, os.*, rand (pkginit.go)
+//	closure-captures-loop-or-outer-var-in-map-range an escaping func literal inside `for … range <map>` that refers to the range variables
+//	            (go.mod < 1.22) or to an outer variable assigned in the loop (pkginit.go)
 //	node-local-config a value read from servertypes.AppOptions / viper / flags / server config structures (app.toml, config.toml) or handed on
 //	            by the app creator (home, invCheckPeriod, skipUpgradeHeights, traceStore, baseapp options) that flows into a keeper /
 //	            module / ante-handler constructor, a baseapp option or a field of a resident struct (nodeconfig.go; app/ and cmd/)
@@ -694,6 +699,7 @@ func main() {
 		abs = r
 	}
 	repoRoot = abs
+	readGoVersion(abs)
 	var pats []string
 	for _, r := range roots {
 		if _, err := os.Stat(filepath.Join(abs, r)); err == nil {
@@ -764,6 +770,7 @@ func main() {
 			}
 			rep.Files++
 			c.holders(f)
+			c.pkgInit(f)
 			for _, d := range f.Decls {
 				switch x := d.(type) {
 				case *ast.FuncDecl:
@@ -773,6 +780,7 @@ func main() {
 						c.procWrites(funcName(x), x.Body)
 						c.errText(funcName(x), x.Body)
 						c.aliasWrites(funcName(x), x.Body)
+						c.mapRangeClosures(funcName(x), x.Body)
 					}
 				case *ast.GenDecl:
 					if x.Tok == token.IMPORT {
